@@ -89,7 +89,7 @@ fn via_fragments(rep: &mut Report, r: &mut Rng, bits: &Bits, mask: u32, name: &s
     };
     let v = gen::judge(&view, &call);
     for m in &v.mismatches {
-        if m.prop == 1 || (mask >> m.prop) & 1 == 1 {
+        if m.prop <= 1 || (mask >> m.prop) & 1 == 1 {
             rep.violation(PID, format!("t{}:{}:fragments", view.uint(0, 6), m.key), format!("{} via {} fragments: field {} expected {} observed {}", name, n, m.key, m.expected, m.observed), || mon::replay_history(&log, name));
             break;
         }
@@ -170,7 +170,7 @@ pub fn run(ctx: &Ctx, rep: &mut Report) {
                 };
                 let v = gen::judge(&view, &call);
                 for m in &v.mismatches {
-                    if m.prop == 1 || (mask >> m.prop) & 1 == 1 {
+                    if m.prop <= 1 || (mask >> m.prop) & 1 == 1 {
                         rep.violation(PID, format!("t{}:{}", view.uint(0, 6), m.key), format!("repository vector + tail: field {} expected {} observed {}", m.key, m.expected, m.observed), || mon::replay_unarmor(&chars, fill, "repo-vector"));
                         break;
                     }
